@@ -22,6 +22,7 @@ RULE = (
     "broken at one generated position, omitted arguments); non-trivial = a container/union/alias/generic term with a "
     "conforming value that needs conversion, or a value broken below the top level; distinct = distinct class+arguments"
 )
+RULE += '; the class under test may be a derived class that inherits all generated attributes (a base-class instance in a Self position does not conform then)'
 LEVEL_TEXT = (
     "Differential testing against an independent three-valued conformance relation over the harness's own term AST: "
     "construction must succeed iff every supplied-or-defaulted value conforms, and every stored attribute must be the "
@@ -119,6 +120,9 @@ def run_case(case) -> Outcome:
         out.sample = {"src": src, "args": case["args"]}
         return out
     C = mod.C0
+    base = None
+    if cls.get("derived") and not cls["generic"]:
+        base, C = mod.C0, mod.C0D
     sibling = None
     if cls["generic"] and cls.get("targ") is not None:
         try:
@@ -133,7 +137,7 @@ def run_case(case) -> Outcome:
         except Exception as exc:  # noqa: BLE001
             out.violate("define", f"C05.define/specialisation-raised/{type(exc).__name__}", f"{exc!r}\n{src}")
             return out
-    env = TT.Env(cls=C, targ=cls.get("targ"))
+    env = TT.Env(cls=C, targ=cls.get("targ"), base=base)
     kwargs = {}
     effective = {}
     why: list = []
@@ -146,7 +150,7 @@ def run_case(case) -> Outcome:
             try:
                 obj = TT.build(supplied, env)
             except Exception:  # noqa: BLE001
-                if not _has_kind(supplied, {"selfinst"}):
+                if not _has_kind(supplied, {"selfinst", "baseinst"}):
                     raise
                 # an inner instance of the class under test could not be built (e.g. it relies on a default whose
                 # conformance is unspecified); the same construction is judged on its own as a top-level case
@@ -215,6 +219,10 @@ def run_case(case) -> Outcome:
         classes.append("postponed-annotations")
     if cls.get("namesake"):
         classes.append("same-named-unrelated-classes")
+    if base is not None:
+        classes.append("derived-class-inheriting-the-attributes")
+        if any(v is not None and _has_kind(v, {"baseinst"}) for v in case["args"].values()):
+            classes.append("base-instance-where-Self-is-expected")
     for kname in ("alias_param", "alias", "self", "union", "literal", "generic", "tuple_fixed", "set", "protocol"):
         if kname in kinds:
             classes.append(kname)
@@ -312,13 +320,15 @@ def gen_class(draw, broken_defaults=True, min_attrs=1):
         attrs.append({"name": f"a{i}", "term": term, "default": default, "default_ok": default_ok})
     future = (not generic) and draw(st.integers(0, 5)) == 0  # module with `from __future__ import annotations`
     namesake = draw(st.integers(0, 5)) == 0  # same-named unrelated State classes exist (see run_case)
-    return {"generic": generic, "targ": targ, "attrs": attrs, "future": future, "namesake": namesake}, allow_self
+    # the class under test is a derived class inheriting all these attributes (more often when one of them is Self-typed)
+    derived = (not generic) and not namesake and draw(st.integers(0, 2 if allow_self else 7)) == 0
+    return {"generic": generic, "targ": targ, "attrs": attrs, "future": future, "namesake": namesake, "derived": derived}, allow_self
 
 
 def gen_args(draw, cls, mode, omit_required=True):
     """mode: good | one-broken | random. Returns (args, broken_depth)"""
     attrs, targ = cls["attrs"], cls["targ"]
-    ctx = {"targ": targ, "self_attrs": attrs}
+    ctx = {"targ": targ, "self_attrs": attrs, "derived": bool(cls.get("derived"))}
     n = len(attrs)
     victim = draw(st.integers(0, n - 1))
     args = {}
